@@ -29,6 +29,13 @@ pub struct CtSpec {
     /// bit k set: the k-th non-fee output is marked for blinding (at least one is always marked)
     pub mark_mask: u32,
     pub unmarked_opreturn: bool,
+    /// (tamper scenario) two unmarked outputs that the relay's base transaction carries with an explicit asset and a
+    /// committed value (blinders r and -r): partially blinded outputs that Transaction::blind cannot produce
+    #[serde(default)]
+    pub partial_gadget: bool,
+    /// (tamper scenario) an issuance whose amount (or inflation keys) is committed while the other stays explicit
+    #[serde(default)]
+    pub conf_issuance: bool,
 }
 
 impl CtSpec {
@@ -46,6 +53,8 @@ impl CtSpec {
             fee: p.chance(3, 4),
             mark_mask: p.u32(),
             unmarked_opreturn: p.chance(1, 4),
+            partial_gadget: false,
+            conf_issuance: false,
         }
     }
     pub fn shrinks(&self) -> Vec<CtSpec> {
@@ -68,6 +77,8 @@ impl CtSpec {
         push(CtSpec { mark_mask: 1, ..self.clone() });
         push(CtSpec { mark_mask: u32::MAX, ..self.clone() });
         push(CtSpec { unmarked_opreturn: false, ..self.clone() });
+        push(CtSpec { conf_issuance: false, ..self.clone() });
+        push(CtSpec { partial_gadget: false, conf_issuance: false, ..self.clone() });
         v
     }
 }
@@ -82,6 +93,10 @@ pub struct Workload {
     /// per output: original (asset, value)
     pub originals: Vec<(AssetId, u64)>,
     pub domain_size: usize,
+    /// partially-blinded gadget: (output index 1, output index 2, asset)
+    pub gadget: Option<(usize, usize, AssetId)>,
+    /// issuances to commit after blinding: (input index, true = the inflation keys, false = the amount)
+    pub conf_iss: Vec<(usize, bool)>,
 }
 
 pub fn addressable_script(p: &mut Prng) -> Script {
@@ -166,6 +181,7 @@ pub fn build(spec: &CtSpec) -> Workload {
     let mut spent = Vec::new();
     let mut secrets = Vec::new();
     let mut large_used = 0;
+    let mut conf_iss: Vec<(usize, bool)> = Vec::new();
     for k in 0..spec.n_in.max(1) {
         // every asset is spent at least once when there are enough inputs
         let asset = if k < assets.len() { assets[k] } else { *p.pick(&assets) };
@@ -217,7 +233,17 @@ pub fn build(spec: &CtSpec) -> Workload {
                 amount: amt_opt.map(Value::Explicit).unwrap_or(Value::Null),
                 inflation_keys: keys.map(Value::Explicit).unwrap_or(Value::Null),
             };
-            let (asset_id, token_id) = issuance_ids_ref(&txin);
+            // in the tamper scenario the amount of an amount+keys issuance may be committed after blinding: the token
+            // then has the "blinded issuance" flavour from the start
+            let commit_amount = spec.conf_issuance && spec.partial_gadget && shape == 1 && p.coin();
+            let commit_keys = spec.conf_issuance && spec.partial_gadget && shape == 1 && !commit_amount;
+            if commit_amount {
+                conf_iss.push((inputs.len(), false));
+            }
+            if commit_keys {
+                conf_iss.push((inputs.len(), true));
+            }
+            let (asset_id, token_id) = issuance_ids_ref_with(&txin, commit_amount);
             if let Some(amt) = amt_opt {
                 *totals.entry(asset_id).or_insert(0) += amt;
                 secrets.push(TxOutSecrets::new(asset_id, AssetBlindingFactor::zero(), amt, ValueBlindingFactor::zero()));
@@ -229,6 +255,17 @@ pub fn build(spec: &CtSpec) -> Workload {
         }
         inputs.push(txin);
     }
+    // the gadget's own explicit input (its value goes to the two gadget outputs, not into the split totals)
+    let gadget_vals = if spec.partial_gadget {
+        let (g1, g2) = (amount(&mut p, false), amount(&mut p, false));
+        let a = assets[0];
+        spent.push(TxOut { asset: Asset::Explicit(a), value: Value::Explicit(g1 + g2), nonce: Nonce::Null, script_pubkey: addressable_script(&mut p), witness: TxOutWitness::default() });
+        secrets.push(TxOutSecrets::new(a, AssetBlindingFactor::zero(), g1 + g2, ValueBlindingFactor::zero()));
+        inputs.push(TxIn { previous_output: OutPoint::new(gen::txid(&mut p), 0), ..Default::default() });
+        Some((g1, g2, a))
+    } else {
+        None
+    };
     let domain_size = secrets.len();
     // outputs: split every asset total; optionally carve a fee out of the first asset
     let mut outs: Vec<(AssetId, u64, bool)> = Vec::new(); // (asset, value, is_fee)
@@ -280,14 +317,28 @@ pub fn build(spec: &CtSpec) -> Workload {
             receivers.push(None);
         }
     }
+    let mut gadget = None;
+    if let Some((g1, g2, a)) = gadget_vals {
+        for g in [g1, g2] {
+            output.push(TxOut { asset: Asset::Explicit(a), value: Value::Explicit(g), nonce: Nonce::Null, script_pubkey: addressable_script(&mut p), witness: TxOutWitness::default() });
+            receivers.push(None);
+            originals.push((a, g));
+        }
+        gadget = Some((output.len() - 2, output.len() - 1, a));
+    }
     let tx = Transaction { version: 2, lock_time: LockTime::ZERO, input: inputs, output };
-    Workload { tx, spent, secrets, receivers, originals, domain_size }
+    Workload { tx, spent, secrets, receivers, originals, domain_size, gadget, conf_iss }
 }
 
 /// Asset and token id of an input's issuance, derived from the definition (entropy from the plain outpoint
 /// and contract hash for a new issuance, carried entropy for a reissuance; token flavour by whether the
 /// issuance amount is blinded) rather than through TxIn::issuance_ids.
 pub fn issuance_ids_ref(txin: &TxIn) -> (AssetId, AssetId) {
+    issuance_ids_ref_with(txin, false)
+}
+
+/// `will_be_blinded`: the issuance amount is going to be committed (token id of the blinded flavour)
+pub fn issuance_ids_ref_with(txin: &TxIn, will_be_blinded: bool) -> (AssetId, AssetId) {
     use elements::{AssetEntropy, ContractHash};
     let iss = &txin.asset_issuance;
     let entropy = if iss.asset_blinding_nonce == gen::ZERO_TWEAK {
@@ -295,7 +346,7 @@ pub fn issuance_ids_ref(txin: &TxIn) -> (AssetId, AssetId) {
     } else {
         AssetEntropy::from_byte_array(iss.asset_entropy)
     };
-    let blinded = matches!(iss.amount, Value::Confidential(_));
+    let blinded = will_be_blinded || matches!(iss.amount, Value::Confidential(_));
     (AssetId::from_entropy(entropy), AssetId::reissuance_token_from_entropy(entropy, blinded))
 }
 
@@ -398,6 +449,8 @@ pub fn apply_tamper(t: &Tamper, tx: &mut Transaction, spent: &mut Vec<TxOut>, do
     let pl = pool();
     let conf_outs: Vec<usize> = (0..tx.output.len()).filter(|i| tx.output[*i].value.is_confidential() && tx.output[*i].asset.is_confidential()).collect();
     let expl_outs: Vec<usize> = (0..tx.output.len()).filter(|i| tx.output[*i].value.is_explicit() && tx.output[*i].asset.is_explicit()).collect();
+    // outputs whose value is committed (whatever the asset): range-proof, script and value-commitment tampers
+    let value_conf_outs: Vec<usize> = (0..tx.output.len()).filter(|i| tx.output[*i].value.is_confidential()).collect();
     // outputs whose asset is confidential (including zero-value unspendable ones): surjection / asset tampers
     let asset_conf_outs: Vec<usize> = (0..tx.output.len()).filter(|i| tx.output[*i].asset.is_confidential()).collect();
     let pick = |v: &Vec<usize>, k: usize| if v.is_empty() { None } else { Some(v[k % v.len()]) };
@@ -428,7 +481,7 @@ pub fn apply_tamper(t: &Tamper, tx: &mut Transaction, spent: &mut Vec<TxOut>, do
             true
         }
         Tamper::ValueCommReplace { out, pool } => {
-            let Some(i) = pick(&conf_outs, *out) else { return false };
+            let Some(i) = pick(&value_conf_outs, *out) else { return false };
             let c = pl.comms[*pool % pl.comms.len()];
             if Value::Confidential(c) == tx.output[i].value {
                 return false;
@@ -446,7 +499,7 @@ pub fn apply_tamper(t: &Tamper, tx: &mut Transaction, spent: &mut Vec<TxOut>, do
             true
         }
         Tamper::ValueCommSwap { a, b } => {
-            let Some((x, y)) = pick2(&conf_outs, *a, *b) else { return false };
+            let Some((x, y)) = pick2(&value_conf_outs, *a, *b) else { return false };
             if tx.output[x].value == tx.output[y].value {
                 return false;
             }
@@ -466,11 +519,11 @@ pub fn apply_tamper(t: &Tamper, tx: &mut Transaction, spent: &mut Vec<TxOut>, do
             true
         }
         Tamper::RangeproofRemove { out } => {
-            let Some(i) = pick(&conf_outs, *out) else { return false };
+            let Some(i) = pick(&value_conf_outs, *out) else { return false };
             tx.output[i].witness.rangeproof.take().is_some()
         }
         Tamper::RangeproofSwap { a, b } => {
-            let Some((x, y)) = pick2(&conf_outs, *a, *b) else { return false };
+            let Some((x, y)) = pick2(&value_conf_outs, *a, *b) else { return false };
             if tx.output[x].witness.rangeproof == tx.output[y].witness.rangeproof {
                 return false;
             }
@@ -480,12 +533,12 @@ pub fn apply_tamper(t: &Tamper, tx: &mut Transaction, spent: &mut Vec<TxOut>, do
             true
         }
         Tamper::RangeproofForeign { out, pool } => {
-            let Some(i) = pick(&conf_outs, *out) else { return false };
+            let Some(i) = pick(&value_conf_outs, *out) else { return false };
             tx.output[i].witness.rangeproof = Some(Box::new(pl.rangeproofs[*pool % pl.rangeproofs.len()].clone()));
             true
         }
         Tamper::RangeproofCorrupt { out, at_1024, bit } => {
-            let Some(i) = pick(&conf_outs, *out) else { return false };
+            let Some(i) = pick(&value_conf_outs, *out) else { return false };
             let Some(rp) = &tx.output[i].witness.rangeproof else { return false };
             let mut b = elements::secp256k1_zkp::RangeProof::serialize(rp);
             let pos = (b.len() as u64 * *at_1024 as u64 / 1024) as usize;
@@ -533,7 +586,7 @@ pub fn apply_tamper(t: &Tamper, tx: &mut Transaction, spent: &mut Vec<TxOut>, do
             }
         }
         Tamper::Script { out, seed } => {
-            let Some(i) = pick(&conf_outs, *out) else { return false };
+            let Some(i) = pick(&value_conf_outs, *out) else { return false };
             let mut p = Prng::from_u64(*seed);
             let mut s = tx.output[i].script_pubkey.to_bytes();
             if s.is_empty() || p.chance(1, 4) {
@@ -548,9 +601,18 @@ pub fn apply_tamper(t: &Tamper, tx: &mut Transaction, spent: &mut Vec<TxOut>, do
         Tamper::IssuanceAmount { input, keys, delta } => {
             let iss: Vec<usize> = (0..tx.input.len()).filter(|i| tx.input[*i].has_issuance()).collect();
             let Some(i) = pick(&iss, *input) else { return false };
-            let slot = if *keys && tx.input[i].asset_issuance.inflation_keys.is_explicit() { &mut tx.input[i].asset_issuance.inflation_keys } else { &mut tx.input[i].asset_issuance.amount };
-            let Some(v) = slot.explicit() else { return false };
-            *slot = Value::Explicit(add_delta(v, *delta));
+            let slot = if *keys && !tx.input[i].asset_issuance.inflation_keys.is_null() { &mut tx.input[i].asset_issuance.inflation_keys } else { &mut tx.input[i].asset_issuance.amount };
+            match *slot {
+                Value::Explicit(v) => *slot = Value::Explicit(add_delta(v, *delta)),
+                Value::Confidential(c) => {
+                    let n = pl.comms[(*delta as usize) % pl.comms.len()];
+                    if n == c {
+                        return false;
+                    }
+                    *slot = Value::Confidential(n);
+                }
+                Value::Null => return false,
+            }
             true
         }
         Tamper::PrevoutValue { input, delta, pool } => {
@@ -610,6 +672,41 @@ pub fn apply_tamper(t: &Tamper, tx: &mut Transaction, spent: &mut Vec<TxOut>, do
             }
         }
     }
+}
+
+/// What the relay's base transaction looks like beyond what Transaction::blind produces: committed issuance
+/// amounts / keys (blinder r on the input side) and two partially blinded outputs (explicit asset, committed
+/// value) whose blinders s and (sum r) - s keep the transaction balanced.
+pub fn post_blind(tx: &mut Transaction, w: &Workload, seed: u64) -> bool {
+    let secp = secp();
+    let Some((o1, o2, asset)) = w.gadget else { return false };
+    let mut p = Prng::from_u64(seed ^ 0x9a06_e7);
+    let mut comp = ValueBlindingFactor::zero();
+    for (i, keys) in &w.conf_iss {
+        let (aid, tid) = issuance_ids_ref_with(&tx.input[*i], !*keys);
+        let r = gen::vbf(&mut p);
+        let slot = if *keys { &mut tx.input[*i].asset_issuance.inflation_keys } else { &mut tx.input[*i].asset_issuance.amount };
+        let Some(v) = slot.explicit() else { continue };
+        let g = elements::secp256k1_zkp::Generator::new_unblinded(secp, (if *keys { tid } else { aid }).into_tag());
+        *slot = Value::Confidential(elements::secp256k1_zkp::PedersenCommitment::new(secp, v, r.into_inner(), g));
+        comp += r;
+    }
+    let s = gen::vbf(&mut p);
+    let mut s2 = comp;
+    s2 += -s;
+    let msg = elements::RangeProofMessage::new(asset, AssetBlindingFactor::zero());
+    for (o, vbf) in [(o1, s), (o2, s2)] {
+        let out = &mut tx.output[o];
+        let sk = gen::secret_key(&mut p);
+        match out.value.blind_with_shared_secret(secp, vbf, sk, &out.script_pubkey, &msg) {
+            Ok((vc, rp)) => {
+                out.value = vc;
+                out.witness.rangeproof = Some(Box::new(rp));
+            }
+            Err(_) => return false,
+        }
+    }
+    true
 }
 
 #[derive(Clone, Debug, Serialize, Deserialize, PartialEq, Eq)]
@@ -819,6 +916,11 @@ impl World for CtWorld {
                 let k = p.urange(3, 8);
                 case.tampers = (0..k).map(|_| Tamper::draw(p)).collect();
                 case.zero_conf_asset_output = p.chance(1, 3);
+                case.spec.partial_gadget = p.chance(1, 2);
+                case.spec.conf_issuance = case.spec.partial_gadget && p.coin();
+                if case.spec.conf_issuance {
+                    case.spec.issuance = true;
+                }
             }
             "hostile-rng" => {
                 case.hostile = true;
@@ -931,6 +1033,21 @@ impl World for CtWorld {
             return;
         }
         let mut rx = rx;
+        if w.gadget.is_some() {
+            if post_blind(&mut rx, &w, case.spec.seed) {
+                ctx.sig("partial_gadget");
+                ctx.sig_n("conf_iss", w.conf_iss.len() as u64);
+                if !w.conf_iss.is_empty() {
+                    ctx.probe("base_with_committed_issuance");
+                }
+                let base = ctx.call("verify_tx_amt_proofs", 0, || rx.verify_tx_amt_proofs(secp, &w.spent));
+                if let Some(base) = base {
+                    if !ctx.check(base.is_ok(), "C05.base", "partial-gadget", || format!("a verifying transaction whose two explicit-asset outputs were committed with blinders r and -r (and issuance amounts committed with compensation) does not verify: {:?}; spec {:?}", base, case.spec)) {
+                        return;
+                    }
+                }
+            }
+        }
         if case.zero_conf_asset_output {
             let mut q = Prng::from_u64(case.spec.seed ^ 0x2e70);
             let asset = w.secrets[q.usize_below(w.secrets.len())].asset;
